@@ -279,7 +279,10 @@ func runC14(c map[string]string, dir string, thorough bool) map[string]interface
 			}
 			var accepted []string
 			variants := map[string][]byte{"one character changed": append(append([]byte(nil), pw[:len(pw)-1]...), pw[len(pw)-1]^1),
-				"case changed": []byte(strings.ToUpper(string(pw))), "truncated": pw[:len(pw)-1], "extended": append(append([]byte(nil), pw...), 'x'), "empty": []byte{}}
+				"case changed": []byte(strings.ToUpper(string(pw))), "truncated": pw[:len(pw)-1], "extended": append(append([]byte(nil), pw...), 'x'), "empty": []byte{},
+				// white space around the password is part of it
+				"newline appended": append(append([]byte(nil), pw...), '\n'), "space appended": append(append([]byte(nil), pw...), ' '),
+				"space in front": append([]byte{' '}, pw...), "CR LF appended": append(append([]byte(nil), pw...), '\r', '\n')}
 			// a history on one file: the right password, every other password, the right password again
 			var probs []string
 			if k2, err := x509.ReadPrivateKeyFromPem(b, pw); err != nil || !samePriv(k, k2) {
